@@ -121,7 +121,10 @@ class Ops:
 
   def coerce_union(self, v, U):
     if isinstance(v, SV) and isinstance(v.sort, Union):
-      # embedding of one union into another through shared payloads is not supported
+      if not self.spec_mode:
+        inner = self.unwrap(v)
+        if isinstance(inner, SV) and inner.sort.name != v.sort.name:
+          return self.coerce(inner, U)
       raise OutsideSubset(f'cannot coerce {v.sort} to {U}')
     if isinstance(v, PyTuple):
       for c in U.ctors.values():
@@ -287,6 +290,8 @@ class Ops:
       raise OutsideSubset(f'== between {a!r} and {b!r}')
     a, b = self.lift(a), self.lift(b)
     if isinstance(sa, IntSort) and isinstance(sb, IntSort):
+      return a.t == b.t
+    if isinstance(sa, BoolSort) and isinstance(sb, BoolSort):
       return a.t == b.t
     if {type(sa), type(sb)} <= {IntSort, NatSort, RealSort, BoolSort}:
       # numeric tower: bool -> int -> real
@@ -496,7 +501,17 @@ class Ops:
     n = s.len(a.t)
     if safety and not self.spec_mode:
       self.oblige(z3.And(i >= -n, i < n), 'safety:index')
-    idx = z3.simplify(z3.If(i < 0, i + n, i)) if not (z3.is_int_value(i) and i.as_long() >= 0) else i
+    si = z3.simplify(i)
+    if z3.is_int_value(si):
+      idx = si if si.as_long() >= 0 else n + si
+    elif self.spec_mode:
+      # spec-level indexing is mathematical: a[i] for 0 <= i < len(a) (no python wrap-around for
+      # symbolic indices; clauses guard their indices) -- keeps the terms usable as triggers
+      idx = i
+    elif self.entails(i >= 0):
+      idx = i
+    else:
+      idx = z3.If(i < 0, i + n, i)
     return SV(s.elem, s.get(a.t, idx))
 
   def set_from_seq(self, v):
